@@ -7,6 +7,8 @@
 //
 // For each case the driver
 //   - draws a concrete character per class from the palette below (seeded; -reps draws per case),
+//   - writes the DECLARED mapping of the case as YAML and has the real seq.ReadMapping convert it; this map (not one built by
+//     hand) is given to the ingestor, to the parser and to the store,
 //   - sends the document through the real bulk.Ingestor (real indexer + tokenizers) and reads the tokens back from the
 //     metas the ingestor hands to its storage client,
 //   - builds each query string from the units TLC emitted (no quoting logic here), parses it with the real
@@ -45,9 +47,9 @@ import (
 	"github.com/ozontech/seq-db/frac"
 	"github.com/ozontech/seq-db/parser"
 	"github.com/ozontech/seq-db/pattern"
+	pb "github.com/ozontech/seq-db/pkg/storeapi"
 	"github.com/ozontech/seq-db/proxy/bulk"
 	"github.com/ozontech/seq-db/seq"
-	pb "github.com/ozontech/seq-db/pkg/storeapi"
 
 	"verifharness/env"
 )
@@ -111,7 +113,19 @@ var palette = map[string][]pchar{
 	"ns": pairs("\u2014", "\u2014", "\u2028", "\u2028", "\u20ac", "\u20ac", "\u2192", "\u2192", "\u3000", "\u3000", "\ufffd", "\ufffd",
 		"\u24b6", "\u24d0", "\u3001", "\u3001"),
 	// bytes that are not UTF-8 and cannot combine with a neighbour into a valid sequence (no usable lead bytes)
+	// (0x80 and 0xbf are lone continuation bytes, the others are bytes that can never start a valid sequence)
 	"iv": same("\xff", "\xc0", "\x80", "\xfe", "\xbf", "\xc1", "\xf8"),
+	// 4-byte letters that are lower case or have no lower-case mapping: Linear B, CJK extension B, Gothic, Deseret small,
+	// mathematical double-struck small a and bold capital A (category Lu without a case pair), Miao, Adlam small
+	"l4": same("\U00010000", "\U00020000", "\U00010330", "\U00010428", "\U0001d552", "\U0001d400", "\U00016f00", "\U0001e922"),
+	// 4-byte upper-case letters (lower case is 4 bytes as well): Deseret, Osage, Old Hungarian, Warang Citi, Adlam, Medefaidrin
+	"u4": pairs("\U00010400", "\U00010428", "\U000104b0", "\U000104d8", "\U00010c80", "\U00010cc0", "\U000118a0", "\U000118c0",
+		"\U0001e900", "\U0001e922", "\U00016e40", "\U00016e60"),
+	// 4-byte decimal digits: mathematical bold 0 / sans-serif 9 / monospace 9, Osmanya, Brahmi, Adlam
+	"n4": same("\U0001d7ce", "\U0001d7eb", "\U0001d7ff", "\U000104a0", "\U00011066", "\U0001e950"),
+	// 4-byte runes that are neither letters nor numbers: emoji, musical symbol, regional indicator, language tag, skin tone
+	// modifier, Aegean word separator
+	"s4": same("\U0001f600", "\U0001f4a9", "\U0001d11e", "\U0001f680", "\U0001f1e6", "\U000e0001", "\U0001f3fb", "\U00010100"),
 }
 
 type table struct {
@@ -220,17 +234,30 @@ type MapEntry struct {
 	All  []MapType `json:"all"`
 }
 type DocField struct {
-	N   string     `json:"n"`
-	Obj bool       `json:"obj"`
-	Sub []DocField `json:"sub"`
+	N    string     `json:"n"`
+	Kind string     `json:"kind"` // leaf | object | tags | nested
+	Sub  []DocField `json:"sub"`
+}
+
+// DeclType / DeclItem: the declared mapping (the YAML tree of seq.ReadMapping) as the specification states it
+type DeclType struct {
+	Title string `json:"title"`
+	Typ   string `json:"typ"`
+	Size  int    `json:"size"`
+}
+type DeclItem struct {
+	Name  string     `json:"name"`
+	Typ   string     `json:"typ"`
+	Types []DeclType `json:"types"`
+	Sub   []DeclItem `json:"sub"`
 }
 type IdxTok struct {
 	Key string `json:"key"`
 	A   []Atom `json:"a"`
 	A2  []Atom `json:"a2"` // the same token without a rune cut in the middle (equal to A if there is none)
 	Lit string `json:"lit"`
+	M   int    `json:"m"` // number of the meta (0: the document, k: its k-th nested element)
 	Ex  bool   `json:"ex"`
-	Gap bool   `json:"gap"` // deviation D1 of the specification: a rune cut by partial indexing in a case-sensitive token
 }
 type Rendering struct {
 	S  string `json:"s"`
@@ -243,7 +270,6 @@ type Probe struct {
 	Typ   string      `json:"typ"`
 	Kind  string      `json:"kind"`
 	Dem   bool        `json:"dem"`
-	Gap   bool        `json:"gap"`
 	Q     []Rendering `json:"q"`
 }
 type Cfg struct {
@@ -253,42 +279,101 @@ type Cfg struct {
 	Partial bool   `json:"partial"`
 	MT      int    `json:"mt"`
 	MS      int    `json:"ms"`
+	Decl    string `json:"decl"`
+	MainPos int    `json:"mainpos"`
 }
 type Case struct {
 	Val    []string   `json:"val"`
 	Cfg    Cfg        `json:"cfg"`
+	Decl   []DeclItem `json:"decl"`
 	Map    []MapEntry `json:"map"`
 	Doc    []DocField `json:"doc"`
+	NMeta  int        `json:"nmeta"`
 	Idx    []IdxTok   `json:"idx"`
 	Probes []Probe    `json:"probes"`
 }
 
 var typeByName = map[string]seq.TokenizerType{
 	"keyword": seq.TokenizerTypeKeyword, "text": seq.TokenizerTypeText, "path": seq.TokenizerTypePath,
-	"exists": seq.TokenizerTypeExists, "object": seq.TokenizerTypeObject,
+	"exists": seq.TokenizerTypeExists, "object": seq.TokenizerTypeObject, "tags": seq.TokenizerTypeTags,
+	"nested": seq.TokenizerTypeNested,
 }
 
-func (c *Case) mapping() (seq.Mapping, string, error) {
-	m := seq.Mapping{}
-	var sig strings.Builder
-	for _, e := range c.Map {
-		mt, ok := typeByName[e.Main]
-		if !ok {
-			return nil, "", fmt.Errorf("unknown type %q", e.Main)
-		}
-		mts := seq.MappingTypes{}
-		for _, a := range e.All {
-			t, ok := typeByName[a.Typ]
-			if !ok {
-				return nil, "", fmt.Errorf("unknown type %q", a.Typ)
+// declYAML writes the declared mapping in the format of the mapping file (names and type words only; nothing is decided here)
+func declYAML(b *strings.Builder, items []DeclItem, indent string) {
+	fmt.Fprintf(b, "%smapping-list:\n", indent)
+	for _, it := range items {
+		fmt.Fprintf(b, "%s  - name: %s\n", indent, it.Name)
+		if len(it.Types) > 0 {
+			fmt.Fprintf(b, "%s    types:\n", indent)
+			for _, t := range it.Types {
+				first := "- "
+				if t.Title != "" {
+					fmt.Fprintf(b, "%s      %stitle: %s\n", indent, first, t.Title)
+					first = "  "
+				}
+				fmt.Fprintf(b, "%s      %stype: %s\n", indent, first, t.Typ)
+				if t.Size != 0 {
+					fmt.Fprintf(b, "%s        size: %d\n", indent, t.Size)
+				}
 			}
-			mts.All = append(mts.All, seq.MappingType{Title: a.Title, TokenizerType: t, MaxSize: a.MS})
-			fmt.Fprintf(&sig, "%s/%s/%s/%d;", e.Name, a.Title, a.Typ, a.MS)
+		} else {
+			fmt.Fprintf(b, "%s    type: %s\n", indent, it.Typ)
 		}
-		mts.Main = seq.MappingType{TokenizerType: mt, Title: mts.All[0].Title, MaxSize: mts.All[0].MaxSize}
-		m[e.Name] = mts
+		if len(it.Sub) > 0 {
+			declYAML(b, it.Sub, indent+"    ")
+		}
 	}
-	return m, sig.String(), nil
+}
+
+var (
+	mapMu    sync.Mutex
+	mappings = map[string]seq.Mapping{}
+)
+
+// mapping: the real conversion of the declared mapping (cached per YAML text); sig is the YAML text
+func (c *Case) mapping() (seq.Mapping, string, error) {
+	if len(c.Decl) == 0 {
+		return nil, "", fmt.Errorf("case without a declared mapping")
+	}
+	var b strings.Builder
+	declYAML(&b, c.Decl, "")
+	y := b.String()
+	mapMu.Lock()
+	defer mapMu.Unlock()
+	if m, ok := mappings[y]; ok {
+		return m, y, nil
+	}
+	m, err := seq.ReadMapping([]byte(y))
+	if err != nil {
+		return nil, y, fmt.Errorf("seq.ReadMapping rejects the declared mapping: %v\n%s", err, y)
+	}
+	mappings[y] = m
+	return m, y, nil
+}
+
+// mappingAgrees: structural comparison of the converted map with the one the specification expects (c.Map is the list of map
+// assignments in program order, the last one wins); a diagnostic - the verdict comes from the queries
+func (c *Case) mappingAgrees(m seq.Mapping) bool {
+	exp := map[string]MapEntry{}
+	for _, e := range c.Map {
+		exp[e.Name] = e
+	}
+	if len(exp) != len(m) {
+		return false
+	}
+	for name, e := range exp {
+		got, ok := m[name]
+		if !ok || got.Main.TokenizerType != typeByName[e.Main] || len(got.All) != len(e.All) {
+			return false
+		}
+		for i, a := range e.All {
+			if got.All[i].Title != a.Title || got.All[i].TokenizerType != typeByName[a.Typ] || got.All[i].MaxSize != a.MS {
+				return false
+			}
+		}
+	}
+	return true
 }
 
 // ---------------------------------------------------------------- concretisation
@@ -373,9 +458,27 @@ func docJSON(dst []byte, fields []DocField, leaf []byte, uid string) []byte {
 		}
 		dst = jsonString(dst, []byte(f.N))
 		dst = append(dst, ':')
-		if f.Obj {
+		switch f.Kind {
+		case "object":
 			dst = docJSON(dst, f.Sub, leaf, "")
-		} else {
+		case "nested": // an array with one element
+			dst = append(dst, '[')
+			dst = docJSON(dst, f.Sub, leaf, "")
+			dst = append(dst, ']')
+		case "tags": // [{"key": name, "value": v}, ...]
+			dst = append(dst, '[')
+			for j, t := range f.Sub {
+				if j > 0 {
+					dst = append(dst, ',')
+				}
+				dst = append(dst, `{"key":`...)
+				dst = jsonString(dst, []byte(t.N))
+				dst = append(dst, `,"value":`...)
+				dst = append(dst, leaf...)
+				dst = append(dst, '}')
+			}
+			dst = append(dst, ']')
+		default:
 			dst = append(dst, leaf...)
 		}
 	}
@@ -606,14 +709,15 @@ func show(b []byte) string {
 }
 
 type stats struct {
-	evals, nontrivial, tokdiff, exemptProbes, exemptFound, e2e, e2eQueries, parseRejected int
-	styles                                                                                map[string]int
+	evals, nontrivial, tokdiff, mapdiff, exemptProbes, exemptFound, e2e, e2eQueries, parseRejected int
+	styles                                                                                         map[string]int
 }
 
 func (s *stats) add(o *stats) {
 	s.evals += o.evals
 	s.nontrivial += o.nontrivial
 	s.tokdiff += o.tokdiff
+	s.mapdiff += o.mapdiff
 	s.exemptProbes += o.exemptProbes
 	s.exemptFound += o.exemptFound
 	s.e2e += o.e2e
@@ -674,6 +778,9 @@ func (r *runner) runCase(n int, c *Case, st *stats) []map[string]any {
 		return []map[string]any{{"infra": err.Error()}}
 	}
 	ing := ingestorFor(c, m, sig, r.workers)
+	if !c.mappingAgrees(m) {
+		st.mapdiff++
+	}
 	for rep := 0; rep < r.reps; rep++ {
 		cc := pick(c, r.seed, n, rep)
 		val := cc.value()
@@ -708,11 +815,15 @@ func (r *runner) runCase(n int, c *Case, st *stats) []map[string]any {
 			mm("ingest: "+err.Error(), nil)
 			continue
 		}
-		if len(metas) != 1 {
-			mm(fmt.Sprintf("ingest: %d metas for a document without nested fields", len(metas)), nil)
+		if len(metas) != c.NMeta {
+			mm(fmt.Sprintf("ingest: %d metas for a document with %d nested elements", len(metas), c.NMeta-1), nil)
 			continue
 		}
-		ti := buildIndex(metas[0])
+		// one token index per meta: the document is found if one of its metas satisfies the query
+		tis := make([]tokIndex, len(metas))
+		for i := range metas {
+			tis[i] = buildIndex(metas[i])
+		}
 		conf.CaseSensitive = c.Cfg.CS
 		demanded := 0
 		for pi := range c.Probes {
@@ -733,7 +844,14 @@ func (r *runner) runCase(n int, c *Case, st *stats) []map[string]any {
 					if err != nil {
 						return false, err
 					}
-					return ti.eval(ast.Root, true)
+					for _, ti := range tis {
+						f, err := ti.eval(ast.Root, true)
+						if err != nil {
+							return false, err
+						}
+						ok = ok || f
+					}
+					return ok, nil
 				}
 				found, perr = ask(q)
 				if !found && len(rd.U2) > 0 {
@@ -754,9 +872,9 @@ func (r *runner) runCase(n int, c *Case, st *stats) []map[string]any {
 				demanded++
 				if perr != nil {
 					st.parseRejected++
-					mm("own-content query rejected: "+perr.Error(), map[string]any{"query": show(q), "style": rd.S, "kind": p.Kind, "field": p.Title, "gap": p.Gap})
+					mm("own-content query rejected: "+perr.Error(), map[string]any{"query": show(q), "style": rd.S, "kind": p.Kind, "field": p.Title})
 				} else if !found {
-					mm("own-content query does not find the document", map[string]any{"query": show(q), "style": rd.S, "kind": p.Kind, "field": p.Title, "gap": p.Gap, "tokens": dumpTokens(metas[0])})
+					mm("own-content query does not find the document", map[string]any{"query": show(q), "style": rd.S, "kind": p.Kind, "field": p.Title, "tokens": dumpTokens(metas)})
 				}
 			}
 		}
@@ -766,42 +884,53 @@ func (r *runner) runCase(n int, c *Case, st *stats) []map[string]any {
 		// expected tokens of the specification, concretely
 		exp := map[string]int{}
 		exempt := map[string]bool{}
-		gapTok := map[string]bool{}
-		titles := map[string]bool{}
+		expExists := map[string]bool{}
 		for _, it := range c.Idx {
 			var k string
 			if it.Key == "_exists_" {
-				k = it.Key + "\x00" + it.Lit
+				k = fmt.Sprintf("%d\x00%s\x00%s", it.M, it.Key, it.Lit)
+				expExists[it.Lit] = true
 			} else {
-				k = it.Key + "\x00" + string(cc.atoms(it.A))
-				titles[it.Key] = true
+				k = fmt.Sprintf("%d\x00%s\x00%s", it.M, it.Key, cc.atoms(it.A))
 			}
 			exp[k]++
 			if it.Ex {
 				// nothing is asserted about this token, whether the implementation keeps or drops a cut rune at its end
-				exempt[k] = true
+				exempt[it.Key+"\x00"+string(cc.atoms(it.A))] = true
 				exempt[it.Key+"\x00"+string(cc.atoms(it.A2))] = true
-			}
-			if it.Gap {
-				gapTok[k] = true
 			}
 		}
 		got := map[string]int{}
-		for key, ft := range ti {
-			if key == "_all_" {
-				continue
-			}
-			for i, v := range ft.vals {
-				k := key + "\x00" + string(v)
-				got[k]++
-				if key == "_exists_" {
-					if exp[k] == 0 {
-						mm("existence token for a field the mapping does not index", map[string]any{"token": show(v)})
+		for mi, ti := range tis {
+			// Index copies the tokens of the document's own meta into the metas of its nested elements
+			copied := map[string]int{}
+			if mi > 0 {
+				for key, ft := range tis[0] {
+					for _, v := range ft.vals {
+						copied[key+"\x00"+string(v)]++
 					}
+				}
+			}
+			for key, ft := range ti {
+				if key == "_all_" {
 					continue
 				}
-				if !ft.matched[i] && !exempt[k] {
-					mm("token that no own-content query produces", map[string]any{"field": key, "token": show(v), "gap": gapTok[k], "tokens": dumpTokens(metas[0])})
+				for i, v := range ft.vals {
+					kk := key + "\x00" + string(v)
+					if copied[kk] > 0 {
+						copied[kk]--
+						continue
+					}
+					got[fmt.Sprintf("%d\x00%s", mi, kk)]++
+					if key == "_exists_" {
+						if !expExists[string(v)] {
+							mm("existence token for a field the mapping does not index", map[string]any{"token": show(v), "tokens": dumpTokens(metas)})
+						}
+						continue
+					}
+					if !ft.matched[i] && !exempt[kk] {
+						mm("token that no own-content query produces", map[string]any{"field": key, "token": show(v), "tokens": dumpTokens(metas)})
+					}
 				}
 			}
 		}
@@ -821,10 +950,16 @@ func (r *runner) runCase(n int, c *Case, st *stats) []map[string]any {
 	return out
 }
 
-func dumpTokens(md frac.MetaData) []string {
+func dumpTokens(mds []frac.MetaData) []string {
 	var out []string
-	for _, t := range md.Tokens {
-		out = append(out, string(t.Key)+"="+show(t.Value))
+	for i, md := range mds {
+		for _, t := range md.Tokens {
+			if i == 0 {
+				out = append(out, string(t.Key)+"="+show(t.Value))
+			} else {
+				out = append(out, fmt.Sprintf("[%d]%s=%s", i, t.Key, show(t.Value)))
+			}
+		}
 	}
 	return out
 }
@@ -849,8 +984,8 @@ func (r *runner) e2eIngest(n int, c *Case, cc *concrete, m seq.Mapping, ing *bul
 	defer r.envMu.Unlock()
 	for pi := range c.Probes {
 		p := &c.Probes[pi]
-		if !p.Dem || p.Gap {
-			continue // deviation D1 is reported at token level; not repeated end to end
+		if !p.Dem {
+			continue
 		}
 		for i, rd := range p.Q {
 			// double quotes always, one more style in rotation
@@ -1009,7 +1144,7 @@ func main() {
 		e.Close()
 	}
 	summary := map[string]any{"summary": true, "cases": n, "evals": total.evals, "nontrivial": total.nontrivial, "corpora": 0,
-		"tokdiff": total.tokdiff, "exempt_probes": total.exemptProbes, "exempt_found": total.exemptFound,
+		"tokdiff": total.tokdiff, "mapdiff": total.mapdiff, "exempt_probes": total.exemptProbes, "exempt_found": total.exemptFound,
 		"e2e_docs": total.e2e, "e2e_queries": total.e2eQueries, "styles": total.styles, "reps": *reps}
 	if *summaryPath != "" {
 		// one line per driver process: the check feeds large case files in chunks
